@@ -870,7 +870,11 @@ def main(tier, seed):
         by_cls.setdefault(cls, []).append((fam, items))
     nviol = 0
     rep_n = 0
-    for cls in sorted(by_cls):
+    ungated = []
+    # classes that name their cause first; bare exit codes and signals (often secondary effects) last
+    def cls_rank(c):
+        return (1 if re.match(r"^(exit:|signal:|hang)", c) else 0, c)
+    for cls in sorted(by_cls, key=cls_rank):
         fams = sorted(by_cls[cls], key=lambda x: (len(x[1][0][1]), x[0]))
         unknown = [(fam, items) for fam, items in fams if not known_match(cls, fam)]
         for fam, items in fams:
@@ -891,8 +895,10 @@ def main(tier, seed):
             e2 = reproduces(exe, plan_ops, cls, name, valgrind, env_)
             e3 = reproduces(exe, plan_ops, cls, name, valgrind, env_)
             if not e2 or not e3:
-                log("INFRASTRUCTURE: violation %s in %s did not reproduce in two fresh worker processes" % (cls, name))
-                return 2
+                # e.g. an unrelated op dying in a build that cannot see an earlier heap corruption: says nothing by itself
+                ungated.append("%s in %s" % (cls, name))
+                log("  (not reported: %s in %s did not reproduce in two fresh worker processes)" % (cls, name))
+                continue
             if env_ is not None:
                 e2["env"] = env_
             path = write_replay(seed, rep_n, b, plan_ops, e2, name)
@@ -906,6 +912,9 @@ def main(tier, seed):
         log(l)
     for l in reported:
         log(l)
+    if ungated and exit_code == 0:
+        log("INFRASTRUCTURE: %d candidate violations did not reproduce in fresh worker processes and nothing else was found: %s" % (len(ungated), ungated[:3]))
+        return 2
     wall = time.time() - t0
     fault_kinds = {"allocation_failure_single+persistent(E1 executions in which it fired)": totals.get("fired", 0) - totals.get("sink_refused", 0),
                    "sink_refused_bytes(E1 executions)": totals.get("sink_refused", 0),
